@@ -106,13 +106,13 @@ def run_case(c):
                     res["setter_identity"] = False
         if "e" in flags:
             b.with_escaping_of_non_ascii_chars("u" in flags)
-        if sp == "minrep":
-            b.with_minimum_repetitions(c["value"])
-            res["out"] = "<no exception>"
-            return res
-        if sp == "minlen":
-            b.with_minimum_substring_length(c["value"])
-            res["out"] = "<no exception>"
+        if sp in ("minrep", "minlen"):
+            b.with_conversion_of_repetitions()
+            if sp == "minrep":
+                b.with_minimum_repetitions(c["value"])
+            else:
+                b.with_minimum_substring_length(c["value"])
+            res["out"] = b.build()
             return res
         b.with_minimum_repetitions(c["minrep"])
         b.with_minimum_substring_length(c["minlen"])
